@@ -27,9 +27,20 @@
  * library emits (requests, responses to every backend verdict), then every
  * single-bit flip, two-bit flip in octets >= 2 and truncation: a frame that
  * left without the checksum the fault needs to be noticed is a violation.
+ * Part 7 (frames that fill the block): valid write requests ending 4 (thorough:
+ * 18) octets before .. 2 octets behind block - sizeof(RPFrame), for three block
+ * sizes, as built, cut short by 1..3 and extended by 1..300 octets, on both
+ * transports with octet, chunk and own-buffer (64 / 1024 octets) sources: up to
+ * the capacity the library shows (learned, regp_ref.h) judged like any frame;
+ * a longer one is never executed nor acknowledged nor called valid.
  * Oracle: the receiver's verdict is in the reference verdict set of
  * regp_ref.h; a frame whose reference verdict is not "valid" is never
  * executed, never acknowledged, and answered as the statement prescribes.
+ * The receiver's verdict is "valid" (error.id 0) or "faulty" (any other
+ * error.id: the statement names the classes, not the numbers); which class it
+ * means is read off the prescribed message (meta message 1/2, response code
+ * 3/2), which must be one the reference admits.  The allocator ledger is C09's
+ * subject: only a release of something that is no live block is reported.
  */
 #include "mc.h"
 #include "regp_ref.h"
@@ -58,19 +69,13 @@ drv_reset(struct drv *d, bool m16)
     }
 }
 
-static unsigned
-impl_verdict(int errid)
-{
-    switch (errid) {
-    case 0: return RV_OK;
-    case EBADMSG: return RV_BADHDR;
-    case EILSEQ: return RV_BADHDRCRC;
-    case EFAULT: return RV_BADSIZE;
-    case EPROTO: return RV_BADPLCRC;
-    default: return 0;
-    }
-}
-
+/* What the receiver says about a frame is observed in RPMaybeFrame.error.id:
+ * zero = "valid", anything else = "classified as faulty".  The statement names
+ * four fault classes, not the numbers that stand for them in error.id; which
+ * class the receiver means is read off the message it sends (meta message 1 / 2
+ * for the header faults, response code 3 / 2 for the payload faults of
+ * requests).  Where no message is owed (payload fault of a non-request) any
+ * non-zero error.id is a classification. */
 static const char *
 vname(unsigned v)
 {
@@ -80,9 +85,22 @@ vname(unsigned v)
     case RV_BADHDRCRC: return "bad-header-checksum";
     case RV_BADSIZE: return "implausible-payload-size";
     case RV_BADPLCRC: return "bad-payload-checksum";
-    case 0: return "other-error";
+    case 0: return "faulty (class not shown)";
     default: return "(set)";
     }
+}
+
+/* the fault class a reply stream of nfr frames shows; 0: none */
+static unsigned
+reply_class(const struct rframe *reply, int nfr)
+{
+    if (nfr != 1)
+        return 0;
+    if (reply[0].type == RT_META)
+        return reply[0].meta == 1 ? RV_BADHDR : reply[0].meta == 2 ? RV_BADHDRCRC : 0;
+    if (reply[0].type == RT_READ_RESP || reply[0].type == RT_WRITE_RESP)
+        return reply[0].meta == 2 ? RV_BADPLCRC : reply[0].meta == 3 ? RV_BADSIZE : 0;
+    return 0;
 }
 
 static long n_detected[6], n_valid, n_skipped_valid;
@@ -139,12 +157,14 @@ judge(bool tcp, const struct rframe *rf, unsigned vset, const struct lp_result *
 {
     unsigned char scratch[DRV_WIRE];
     const int rrc = r->rrc, errid = r->errid;
-    const unsigned iv = impl_verdict(errid);
+    const bool says_valid = errid == 0;
+    const unsigned faults = vset & ~(unsigned)RV_OK;
     if (sink_failed) {
         /* The statement's "is never executed and never acknowledged" does not
          * depend on the reply getting through; "the corresponding message is
-         * sent" cannot hold.  A receiver whose transmission failed may report
-         * that through its return value alone (error.id 0 with rc < 0). */
+         * sent" cannot hold, so the class the receiver means cannot be seen.
+         * A receiver whose transmission failed may report that through its
+         * return value alone (error.id 0 with rc < 0). */
         if (r->calls != 0) {
             mc_fail("C07/never-executed", "%s: the reply could not be sent (recv rc=%d error.id=%d) and the frame caused %d memory accesses", fault, rrc, errid, r->calls);
             return false;
@@ -156,32 +176,32 @@ judge(bool tcp, const struct rframe *rf, unsigned vset, const struct lp_result *
             mc_fail("C07/never-acknowledged", "%s: the frame was acknowledged", fault);
             return false;
         }
-        if (!(vset & RV_OK) && ((iv == RV_OK && rrc >= 0) || (iv > RV_OK && !(iv & vset)))) {
-            mc_fail("C07/verdict-class", "%s: receiver says %s (rc=%d error.id=%d); an independent reading of the document says %s%s", fault, vname(iv), rrc, errid,
+        if (!(vset & RV_OK) && says_valid && rrc >= 0) {
+            mc_fail("C07/verdict-class", "%s: receiver says valid (rc=%d error.id=%d); an independent reading of the document says %s%s", fault, rrc, errid,
                     vname(vset & -vset), (vset & (vset - 1)) ? " (or alternatives)" : "");
             return false;
         }
-        if (!drv_balanced(&D)) {
-            mc_fail("C07/ledger", "%s: allocator ledger unbalanced", fault);
+        if (lp_bad_releases(&D)) {
+            mc_fail("C07/ledger", "%s: %d releases of something that is no live block (double or foreign release)", fault, lp_bad_releases(&D));
             return false;
         }
         n_detected[4]++;
         return true;
     }
-    if (rrc < 0 && iv <= RV_OK) {
+    if (rrc < 0 && says_valid) {
         /* the classification is observed in error.id; a receiver may in
          * addition report the fault through its return value */
         mc_fail("C07/receiver-classifies", "%s: regp_recv returned %d with error.id=%d instead of classifying the frame", fault, rrc, errid);
         return false;
     }
-    if (!(iv & vset)) {
+    if (says_valid ? !(vset & RV_OK) : !faults) {
         /* name the most telling clause */
-        const char *cl = (iv == RV_OK && (vset & RV_BADPLCRC)) ? "C07/payload-checksum-verified"
-            : (iv == RV_OK && (vset & RV_BADSIZE)) ? "C07/payload-size-verified"
-            : (iv == RV_OK && (vset & RV_BADHDRCRC)) ? "C07/header-checksum-verified"
-            : (iv == RV_OK) ? "C07/header-encoding-verified"
-            : (vset & RV_OK) ? "C07/valid-frame-accepted" : "C07/verdict-class";
-        mc_fail(cl, "%s: receiver says %s (error.id=%d); an independent reading of the document says %s%s", fault, vname(iv), errid,
+        const char *cl = (says_valid && (vset & RV_BADPLCRC)) ? "C07/payload-checksum-verified"
+            : (says_valid && (vset & RV_BADSIZE)) ? "C07/payload-size-verified"
+            : (says_valid && (vset & RV_BADHDRCRC)) ? "C07/header-checksum-verified"
+            : says_valid ? "C07/header-encoding-verified"
+            : "C07/valid-frame-accepted";
+        mc_fail(cl, "%s: receiver says %s (error.id=%d); an independent reading of the document says %s%s", fault, says_valid ? "valid" : "faulty", errid,
                 vname(vset & -vset), (vset & (vset - 1)) ? " (or alternatives)" : "");
         return false;
     }
@@ -197,49 +217,72 @@ judge(bool tcp, const struct rframe *rf, unsigned vset, const struct lp_result *
         mc_fail("C07/reply-well-formed", "%s: the reply octets are not a sequence of frames", fault);
         return false;
     }
-    if (iv == RV_OK) {
+    if (says_valid) {
         n_valid++;
         return true; /* executing valid frames is C06's subject */
     }
-    n_detected[iv == RV_BADHDR ? 0 : iv == RV_BADHDRCRC ? 1 : iv == RV_BADSIZE ? 2 : 3]++;
     if (r->calls != 0) {
-        mc_fail("C07/never-executed", "%s: a frame classified %s caused %d memory accesses", fault, vname(iv), r->calls);
+        mc_fail("C07/never-executed", "%s: a frame classified as faulty (error.id=%d) caused %d memory accesses", fault, errid, r->calls);
         return false;
     }
     if (acked) {
-        mc_fail("C07/never-acknowledged", "%s: a frame classified %s was acknowledged", fault, vname(iv));
+        mc_fail("C07/never-acknowledged", "%s: a frame classified as faulty (error.id=%d) was acknowledged", fault, errid);
         return false;
     }
-    if (iv == RV_BADHDR || iv == RV_BADHDRCRC) {
-        const unsigned want = iv == RV_BADHDR ? 1 : 2;
-        /* whether reception or processing sends it is not part of the statement */
-        if (nfr != 1 || reply[0].type != RT_META || reply[0].meta != want) {
-            mc_fail("C07/header-fault-meta-reply", "%s: %s must be answered by reception with exactly one meta message %u; got %d frames (first: type %u code %u)", fault,
-                    vname(iv), want, nfr, nfr > 0 ? reply[0].type : 99, nfr > 0 ? reply[0].meta : 99);
+    /* the class the receiver means, shown by the message the statement prescribes for it */
+    const bool isreq = rf->type == RT_READ_REQ || rf->type == RT_WRITE_REQ;
+    const unsigned hdrfaults = faults & (RV_BADHDR | RV_BADHDRCRC), plfaults = faults & (RV_BADSIZE | RV_BADPLCRC);
+    const unsigned shown = reply_class(reply, nfr);
+    unsigned cls;
+    if (shown) {
+        if (!(shown & faults)) {
+            mc_fail("C07/verdict-class", "%s: the receiver's reply (type %u code %u, error.id=%d) classifies the frame as %s; an independent reading of the document says %s%s",
+                    fault, reply[0].type, reply[0].meta, errid, vname(shown), vname(vset & -vset), (vset & (vset - 1)) ? " (or alternatives)" : "");
             return false;
         }
-    } else {
-        const bool isreq = rf->type == RT_READ_REQ || rf->type == RT_WRITE_REQ;
-        if (!isreq) {
-            if (r->out1 != r->out0) {
-                mc_fail("C07/payload-fault-reply", "%s: a non-request with a payload fault was answered (%zu octets)", fault, r->out1 - r->out0);
-                return false;
-            }
-        } else {
-            const unsigned want = iv == RV_BADSIZE ? 3 : 2;
-            if (nfr != 1 || reply[0].type != (rf->type == RT_READ_REQ ? RT_READ_RESP : RT_WRITE_RESP) || reply[0].meta != want
-                || reply[0].seq != rf->seq || reply[0].addr != rf->addr || reply[0].plen != 0) {
-                mc_fail("C07/payload-fault-reply", "%s: a request classified %s must be answered with one response code %u echoing seq/address; got %d frames (first: type %u code %u)",
-                        fault, vname(iv), want, nfr, nfr > 0 ? reply[0].type : 99, nfr > 0 ? reply[0].meta : 99);
-                return false;
-            }
+        if ((shown & (RV_BADSIZE | RV_BADPLCRC))
+            && (!isreq || reply[0].type != (rf->type == RT_READ_REQ ? RT_READ_RESP : RT_WRITE_RESP) || reply[0].seq != rf->seq || reply[0].addr != rf->addr
+                || reply[0].plen != 0)) {
+            mc_fail("C07/payload-fault-reply", "%s: a %s classified %s must be answered with %s; got type %u code %u seq %04x address %08x, %zu payload octets", fault,
+                    isreq ? "request" : "non-request", vname(shown), isreq ? "one response of the request's kind echoing seq/address, without payload" : "nothing", reply[0].type,
+                    reply[0].meta, reply[0].seq, reply[0].addr, reply[0].plen);
+            return false;
         }
+        cls = shown;
+    } else if (nfr == 0 && r->out1 == r->out0 && !isreq && plfaults) {
+        cls = plfaults & -plfaults; /* payload fault of a non-request: no message is owed, the class is not shown */
+    } else {
+        const bool want_pl = !hdrfaults;
+        mc_fail(want_pl ? "C07/payload-fault-reply" : "C07/header-fault-meta-reply",
+                "%s: the frame was classified as faulty (error.id=%d; by the document: %s%s) but the prescribed message (%s) was not what was sent: %d frames (first: type %u code %u)",
+                fault, errid, vname(faults & -faults), (faults & (faults - 1)) ? " or alternatives" : "",
+                want_pl ? (isreq ? "one response with code 2 or 3" : "none") : (isreq && plfaults) ? "one meta message 1 or 2, or one response with code 2 or 3" : "one meta message 1 or 2",
+                nfr, nfr > 0 ? reply[0].type : 99, nfr > 0 ? reply[0].meta : 99);
+        return false;
     }
-    if (!drv_balanced(&D)) {
-        mc_fail("C07/ledger", "%s: allocator ledger unbalanced", fault);
+    n_detected[cls == RV_BADHDR ? 0 : cls == RV_BADHDRCRC ? 1 : cls == RV_BADSIZE ? 2 : 3]++;
+    if (lp_bad_releases(&D)) {
+        mc_fail("C07/ledger", "%s: %d releases of something that is no live block (double or foreign release)", fault, lp_bad_releases(&D));
         return false;
     }
     return true;
+}
+
+/* D (parts 1, 2, 6: one instance, octet source, serial at first) is switched to
+ * the other framing through the public interface */
+static int g_chan_tcp;
+
+static void
+use_transport(bool tcp)
+{
+    if ((int)tcp == g_chan_tcp)
+        return;
+    Source src;
+    Sink snk;
+    octet_source_init(&src, drv_src_octet, &D);
+    chunk_sink_init(&snk, drv_sink_chunk, &D);
+    regp_use_channel(&D.p, tcp ? RP_EP_TCP : RP_EP_SERIAL, src, snk);
+    g_chan_tcp = tcp;
 }
 
 /* Feed raw frame X (n octets) over the given transport; check the receiver
@@ -277,22 +320,21 @@ run_frame(bool tcp, const unsigned char *X, size_t n, bool corrupted, const char
     const size_t wn = tcp ? rr_lenprefix(wire, X, n) : rr_slip(wire, X, n);
     const bool m16 = (rf.options & RO_W16) != 0; /* attach matching memory: execution must be prevented by the verdict alone */
     drv_reset(&D, m16);
-    D.p.ep.type = tcp ? RP_EP_TCP : RP_EP_SERIAL;
+    use_transport(tcp);
     drv_feed(&D, wire, wn);
     /* one round of the documented serving loop, the caller's RPMaybeFrame reused */
     struct lp_result r;
     lp_round(&D, &g_mf, &r);
     mc_trans(3);
-    const unsigned iv = impl_verdict(r.errid);
     if (mc.verbose && mc.active) {
-        mc_log("%s: recv rc=%d error.id=%d (%s) process rc=%d calls=%d reply=%zu octets; reference verdict set=%02x", fault, r.rrc, r.errid, vname(iv), r.prc,
-               r.calls, D.outlen, vset);
+        mc_log("%s: recv rc=%d error.id=%d (%s) process rc=%d calls=%d reply=%zu octets; reference verdict set=%02x", fault, r.rrc, r.errid,
+               r.errid ? "classified as faulty" : "valid", r.prc, r.calls, D.outlen, vset);
         mc_log_hex("frame", X, n);
         mc_log_hex("reply", D.out, D.outlen);
     }
     if (corrupted && g_escape_mode == 2) {
         n_escaped++;
-        if (iv == RV_OK) {
+        if (r.errid == 0) {
             mc_fail("C07/burst-escapes-checksum", "%s: the corrupted frame is valid under doc/regp.txt's checksum layout and was accepted%s", fault,
                     r.calls ? " and executed" : "");
             return false;
@@ -592,10 +634,32 @@ good_request(bool tcp, bool m16, unsigned char *wire)
 static int g_srcmode = DRV_SRC_OCTET;
 static const char *SRCNAME[] = { "chunk source", "octet source", "chunk source with getbuffer" };
 
-static void
-session_start(bool tcp, bool m16, int mode)
+/* a chunk source that offers a buffer of its own large enough for a whole
+ * frame (the getbuffer source of regp_ref.h offers 64 octets) */
+static unsigned char big_scratch[1024];
+static bool g_big_buffer;
+
+static ByteBuffer
+big_getbuffer(Source *s)
 {
-    drv_init_ex(&D, tcp, m16, BLOCKSIZE, g_srcmode);
+    (void)s;
+    ByteBuffer b;
+    byte_buffer_use(&b, big_scratch, sizeof big_scratch);
+    return b;
+}
+
+static void
+session_start_ex(bool tcp, bool m16, int mode, size_t blocksize)
+{
+    drv_init_ex(&D, tcp, m16, blocksize, g_srcmode);
+    if (g_big_buffer) {
+        Source src;
+        Sink snk;
+        chunk_source_init(&src, drv_src_chunk, &D);
+        src.ext.getbuffer = big_getbuffer;
+        chunk_sink_init(&snk, drv_sink_chunk, &D);
+        regp_use_channel(&D.p, tcp ? RP_EP_TCP : RP_EP_SERIAL, src, snk);
+    }
     if (mode & 2)
         lp_use_pool(&D, 0);
     lp_decoy(&g_mf, m16);
@@ -610,6 +674,12 @@ session_start(bool tcp, bool m16, int mode)
         D.outlen = 0;
         D.ncalls = 0;
     }
+}
+
+static void
+session_start(bool tcp, bool m16, int mode)
+{
+    session_start_ex(tcp, m16, mode, BLOCKSIZE);
 }
 
 static const char *SMODE[4] = { "RPMaybeFrame indeterminate, heap allocator", "after a served request, heap allocator", "RPMaybeFrame indeterminate, pool allocator",
@@ -655,8 +725,9 @@ run_wire(bool m16, int mode, const unsigned char *w, size_t n, const char *fault
         } else if (acked) {
             mc_fail("C07/never-acknowledged", "%s: no reading of the damaged stream holds a valid frame, but an acknowledgement was sent", fault);
             ok = false;
-        } else if (!drv_balanced(&D)) {
-            mc_fail("C07/ledger", "%s: allocator ledger unbalanced (allocs=%d frees=%d live=%d foreign/double releases=%d)", fault, D.allocs, D.frees, D.nlive, D.bad_frees);
+        } else if (lp_bad_releases(&D)) {
+            mc_fail("C07/ledger", "%s: %d releases of something that is no live block (double or foreign release; allocs=%d frees=%d)", fault, lp_bad_releases(&D), D.allocs,
+                    D.frees);
             ok = false;
         }
     }
@@ -1002,9 +1073,9 @@ part5(void)
                                 } else if (acked) {
                                     mc_fail("C07/never-acknowledged", "%s: no frame was received but an acknowledgement was sent", fd);
                                     ok = false;
-                                } else if (!drv_balanced(&D)) {
-                                    mc_fail("C07/ledger", "%s: allocator ledger unbalanced (allocs=%d frees=%d live=%d foreign/double releases=%d)", fd, D.allocs, D.frees,
-                                            D.nlive, D.bad_frees);
+                                } else if (lp_bad_releases(&D)) {
+                                    mc_fail("C07/ledger", "%s: %d releases of something that is no live block (double or foreign release; allocs=%d frees=%d)", fd,
+                                            lp_bad_releases(&D), D.allocs, D.frees);
                                     ok = false;
                                 }
                             }
@@ -1021,6 +1092,133 @@ part5(void)
             }
         }
     g_srcmode = DRV_SRC_OCTET;
+}
+
+/* ---- part 7: frames that fill the block, truncated and extended ------------------------------ */
+/* A valid write request whose frame ends at (or a few octets before / behind)
+ * the end of what the receiver takes into a block, as built, cut short by 1..3
+ * octets and extended by 1..300 octets (the extension is covered by the length
+ * prefix / lies in front of the END octet).  Up to the capacity the library
+ * shows (learned, regp_ref.h) the receiver's verdict is judged like everywhere
+ * else; a frame longer than that cannot have been received whole: what the
+ * receiver calls it and what it answers is C09's subject, but it is no valid
+ * frame by the document, so it is never executed and never acknowledged.  The
+ * block sizes put the capacity on a multiple of the 64 octets in which a source
+ * with a buffer of its own hands the frame on, between two multiples, and below
+ * the first one. */
+static void
+part7(void)
+{
+    static const char *SRC7[] = { "octet source", "chunk source", "chunk source with a 64-octet buffer of its own", "chunk source with a 1024-octet buffer of its own" };
+    static const size_t BSZ[] = { BLOCKSIZE, sizeof(RPFrame) + 100, sizeof(RPFrame) + 33 };
+    static const int EXT[] = { -3, -2, -1, 0, 1, 2, 3, 4, 30, 63, 64, 65, 130, 300 };
+    static const unsigned char EO[3] = { 0x00, 0xff, 0xc0 };
+    static bool capped, capped_serial;
+    char fd[160];
+    for (unsigned bi = 0; bi < sizeof BSZ / sizeof *BSZ; ++bi)
+        for (int tcp = 0; tcp < 2; ++tcp)
+            for (int sm = 0; sm < 4; ++sm)
+                for (int w16 = 0; w16 < 2; ++w16)
+                    for (int mode = 0; mode < 4; ++mode)
+                        for (int dl = g_th ? -18 : -4; dl <= 2; ++dl) {
+                            const size_t bsz = BSZ[bi], guess = bsz - sizeof(RPFrame), hdr = tcp ? 12 : 16;
+                            if ((long)guess + dl < (long)hdr + 1)
+                                continue;
+                            const size_t L = (size_t)((long)guess + dl), plen = L - hdr;
+                            if (w16 && (plen & 1))
+                                continue;
+                            if (!mc_case("capacity: blocksize=%zu (descriptor + %zu) %s write%d request of %zu octets as built, cut short by 1..3, extended by 1..300 octets of 00/ff/c0, 2 payload contents; %s, %s",
+                                         bsz, guess, tcp ? "tcp" : "serial", w16 ? 16 : 8, L, SRC7[sm], SMODE[mode]))
+                                continue;
+                            memset(n_detected, 0, sizeof n_detected);
+                            n_valid = 0;
+                            g_srcmode = sm == 0 ? DRV_SRC_OCTET : sm == 2 ? DRV_SRC_CHUNK_GETBUFFER : DRV_SRC_CHUNK;
+                            g_big_buffer = sm == 3;
+                            /* the capacity the library shows for this block size (probes run inside the case) */
+                            size_t cap = drv_learn_capacity(bsz);
+                            bool fits_judged = true;
+                            if (cap == DRV_CAP_UNKNOWN) {
+                                if (!capped)
+                                    mc_cap("the library's answers define no receive capacity for some block sizes: block - sizeof(RPFrame) assumed there");
+                                capped = true;
+                                cap = guess;
+                            } else if (!tcp && !drv_capacity_serial_agrees(bsz)) {
+                                if (!capped_serial)
+                                    mc_cap("serial frames do not meet the capacity learned on the length-prefix transport: only 'never executed, never acknowledged' judged for serial frames at the capacity");
+                                capped_serial = true;
+                                fits_judged = false;
+                            }
+                            g_drv = &D;
+                            bool ok = true;
+                            long n_over = 0;
+                            for (int content = 0; content < 2 && ok; ++content)
+                                for (unsigned ei = 0; ei < sizeof EXT / sizeof *EXT && ok; ++ei)
+                                    for (int eo = 0; eo < (EXT[ei] > 0 ? 3 : 1) && ok; ++eo) {
+                                        unsigned char pl[BLOCKSIZE], X[BLOCKSIZE + 320], wire[2 * (BLOCKSIZE + 320) + 16];
+                                        struct rframe f, rf;
+                                        memset(&f, 0, sizeof f);
+                                        for (size_t i = 0; i < plen; ++i)
+                                            pl[i] = content ? 0 : (unsigned char)(0xb9 + 7 * i);
+                                        f.type = RT_WRITE_REQ;
+                                        f.options = (w16 ? RO_W16 : 0) | (tcp ? 0 : RO_HDCRC | RO_PLCRC);
+                                        f.seq = 0x7c07;
+                                        f.addr = 0x00000b00;
+                                        f.bsize = (uint32_t)(plen / (w16 ? 2 : 1));
+                                        f.payload = pl;
+                                        f.plen = plen;
+                                        size_t n = rr_build(X, &f, false, false);
+                                        if (n != L)
+                                            mc_broken("part 7: frame of %zu octets built, %zu wanted", n, L);
+                                        if (EXT[ei] < 0)
+                                            n -= (size_t)-EXT[ei];
+                                        for (int i = 0; i < EXT[ei]; ++i)
+                                            X[n++] = EO[eo];
+                                        if (EXT[ei] < 0)
+                                            snprintf(fd, sizeof fd, "content %d, cut short by %d octets (%zu octets)", content, -EXT[ei], n);
+                                        else if (EXT[ei] > 0)
+                                            snprintf(fd, sizeof fd, "content %d, extended by %d octets %02x (%zu octets)", content, EXT[ei], EO[eo], n);
+                                        else
+                                            snprintf(fd, sizeof fd, "content %d, as built (%zu octets)", content, n);
+                                        const unsigned vset = frame_vset(tcp, X, n, &rf);
+                                        const size_t wn = tcp ? rr_lenprefix(wire, X, n) : rr_slip(wire, X, n);
+                                        session_start_ex(tcp, w16, mode, bsz);
+                                        drv_feed(&D, wire, wn);
+                                        struct lp_result r;
+                                        lp_round(&D, &g_mf, &r);
+                                        mc_trans(3);
+                                        if (mc.verbose && mc.active)
+                                            mc_log("%s: recv rc=%d error.id=%d process rc=%d calls=%d reply=%zu octets; reference verdict set=%02x; learned capacity %zu", fd, r.rrc,
+                                                   r.errid, r.prc, r.calls, D.outlen, vset, cap);
+                                        if (n <= cap && fits_judged)
+                                            ok = judge(tcp, &rf, vset, &r, false, fd);
+                                        else if (!(vset & RV_OK)) {
+                                            unsigned char scratch[DRV_WIRE];
+                                            struct rframe reply[8];
+                                            bool acked;
+                                            n_over++;
+                                            (void)decode_replies(tcp, r.out0, r.out1, true, reply, scratch, &acked);
+                                            if (r.calls != 0) {
+                                                mc_fail("C07/never-executed", "%s: the frame is longer than the block takes (capacity %zu) and no valid frame by the document, but caused %d memory accesses (%s addr=%08x size=%zu; recv rc=%d error.id=%d)",
+                                                        fd, cap, r.calls, D.call[0].write ? "write" : "read", D.call[0].addr, D.call[0].bsize, r.rrc, r.errid);
+                                                ok = false;
+                                            } else if (acked) {
+                                                mc_fail("C07/never-acknowledged", "%s: the frame is longer than the block takes (capacity %zu) and no valid frame by the document, but was acknowledged", fd, cap);
+                                                ok = false;
+                                            } else if (r.errid == 0 && r.rrc >= 0) {
+                                                mc_fail("C07/payload-size-verified", "%s: receiver says valid (rc=%d error.id=0); an independent reading of the document says %s", fd, r.rrc,
+                                                        vname(vset & -vset));
+                                                ok = false;
+                                            } else if (lp_bad_releases(&D)) {
+                                                mc_fail("C07/ledger", "%s: %d releases of something that is no live block (double or foreign release)", fd, lp_bad_releases(&D));
+                                                ok = false;
+                                            }
+                                        }
+                                        lp_release(&D);
+                                    }
+                            g_srcmode = DRV_SRC_OCTET;
+                            g_big_buffer = false;
+                            mc_end(true, !ok ? "failed" : n_over ? "capacity-extension-refused" : "capacity-frames-judged");
+                        }
 }
 
 /* ---- part 6: frames the library itself puts on a serial line -------------------------------- */
@@ -1126,6 +1324,7 @@ part6(void)
                 n = emit_frame(k, raw, name, sizeof name);
                 have = true;
                 drv_init(&D, false, true, BLOCKSIZE, true);
+                g_chan_tcp = 0;
             }
             if (!mc_case("emitted#%d (%s), as the library put it on a serial line: %s", k, name, FN[fam]))
                 continue;
@@ -1185,6 +1384,7 @@ main(int argc, char **argv)
     }
     make_corpus();
     drv_init(&D, false, true, BLOCKSIZE, true);
+    g_chan_tcp = 0;
     part1();
     part2();
     drv_release(&D);
@@ -1192,12 +1392,13 @@ main(int argc, char **argv)
     part4();
     part5();
     part6();
+    part7();
     if (mc.only < 0 && n_skipped_valid > 0)
         mc_cap("%ld corrupted frames were valid by the reference itself (undetectable, skipped)", n_skipped_valid);
-    char bound[1400];
-    snprintf(bound, sizeof bound, "%d corpus frames x (all 1-bit flips, all 2-bit flips in octets>=2, all bursts of span 2..%s at every bit offset >= 16 in transmission order, all truncations, 9 extensions); generated: 2 transports x 3 versions x 16 types x 16 option patterns x 16 meta x block size {0,1,2 with payload n-1,n,n+1; 23 sizes straddling 2^7,2^8,2^15,2^16,2^31,2^32 with payload 0..7 octets} x checksums right/wrong x header cuts; line faults: corpus x (every 1-bit flip of the SLIP stream%s, every cut, every lost/duplicated octet) x {indeterminate RPMaybeFrame, after a served request} x {heap, pool allocator}, documented loop until the stream is used up%s; unsendable replies: 8 fault kinds x read/write x 8/16 x transports x sink failure at reply octet 0..23 x 3 error codes x 4 session modes; sessions: every sequence of 2..%d receptions out of %d (serial) / %d (tcp) items (good requests, corrupted frames of every class, channel failures) x heap/pool%s; emitted: %d frame kinds the library emits on a serial line x (1-bit flips, 2-bit flips in octets>=2, truncations)",
+    char bound[2200];
+    snprintf(bound, sizeof bound, "%d corpus frames x (all 1-bit flips, all 2-bit flips in octets>=2, all bursts of span 2..%s at every bit offset >= 16 in transmission order, all truncations, 9 extensions); generated: 2 transports x 3 versions x 16 types x 16 option patterns x 16 meta x block size {0,1,2 with payload n-1,n,n+1; 23 sizes straddling 2^7,2^8,2^15,2^16,2^31,2^32 with payload 0..7 octets} x checksums right/wrong x header cuts; line faults: corpus x (every 1-bit flip of the SLIP stream%s, every cut, every lost/duplicated octet) x {indeterminate RPMaybeFrame, after a served request} x {heap, pool allocator}, documented loop until the stream is used up%s; unsendable replies: 8 fault kinds x read/write x 8/16 x transports x sink failure at reply octet 0..23 x 3 error codes x 4 session modes; sessions: every sequence of 2..%d receptions out of %d (serial) / %d (tcp) items (good requests, corrupted frames of every class, channel failures) x heap/pool%s; emitted: %d frame kinds the library emits on a serial line x (1-bit flips, 2-bit flips in octets>=2, truncations); capacity: 3 block sizes (256, descriptor+100, descriptor+33) x transports x 4 source kinds (octet, chunk, chunk with own buffer of 64 / 1024 octets) x write8/16 requests ending %d octets before .. 2 behind block - sizeof(RPFrame) x 4 session modes x {as built, cut short by 1..3, extended by 1,2,3,4,30,63,64,65,130,300 octets of 00/ff/c0} x 2 payload contents, judged against the capacity learned from the library",
              ncorpus, g_th ? "16 (every pattern)" : "9 (every pattern) and solid runs up to 16", g_th ? ", every 2-bit flip after a served request" : "", g_th ? ", 1-bit flips/cuts with octet, chunk and getbuffer sources" : "", g_th ? 4 : 3,
-             nsitems[0], nsitems[1], g_th ? ", sequences of 2..3 also with chunk and getbuffer sources" : "", NEMIT);
+             nsitems[0], nsitems[1], g_th ? ", sequences of 2..3 also with chunk and getbuffer sources" : "", NEMIT, g_th ? 18 : 4);
     mc_finish(true, bound);
     return 0;
 }
